@@ -29,6 +29,10 @@ func init() {
 		Run:         runC16,
 		Configs:     []string{"linux/amd64"},
 		Mutants: []Mutant{
+			{Name: "render-folds-lines", File: "analysis/report/report.go", Rule: "R16.5", KeyPart: "report.Render::printed-source-handed-on-verbatim",
+				Old: "\treturn buf.String()\n}\n\nfunc RenderArgs", New: "\treturn strings.Join(strings.Fields(buf.String()), \" \")\n}\n\nfunc RenderArgs"},
+			{Name: "replacement-text-trimmed", File: "analysis/edit/edit.go", Rule: "R16.5", KeyPart: "edit.ReplaceWithNode::printed-source-handed-on-verbatim",
+				Old: "\t\tPos:     old.Pos(),\n\t\tEnd:     old.End(),\n\t\tNewText: buf.Bytes(),\n\t}\n}\n\n// ReplaceWithPattern", New: "\t\tPos:     old.Pos(),\n\t\tEnd:     old.End(),\n\t\tNewText: bytes.ReplaceAll(buf.Bytes(), []byte(\"\\n\"), []byte(\" \")),\n\t}\n}\n\n// ReplaceWithPattern"},
 			{Name: "check-builds-diagnostic-itself", File: "stylecheck/st1003/st1003.go", Rule: "R16.1", KeyPart: "st1003",
 				Old: "\tinitialisms := make(map[string]bool, len(il))", New: "\tpass.Report(analysis.Diagnostic{Pos: pass.Files[0].Package, End: pass.Files[0].Name.NamePos, Message: \"x\"})\n\tinitialisms := make(map[string]bool, len(il))"},
 			{Name: "report-end-from-other-node", File: "analysis/report/report.go", Rule: "R16.1", KeyPart: "report.Report",
@@ -379,6 +383,107 @@ func runC16(c *Ctx) {
 			}
 		}
 		c.Check(FuncKey(report)+"::Related-forwarded", report.Pos(), rel, "related information reaches the diagnostic unchanged")
+	})
+
+	// R16.5: source text rendered from syntax is handed on verbatim. The
+	// functions that render an AST node with go/format (report.Render for text
+	// that checks splice into fixes, the edit helpers for replacement text)
+	// return what the printer wrote. go/printer guarantees that its output
+	// parses back; any textual post-processing that is not token-aware
+	// (folding lines, trimming, replacing) can join two statements or two
+	// fields and yields fixes that no longer parse.
+	c.Rule("R16.5", func() {
+		c.Floor("R16.5", 5)
+		rewriterPkgs := map[string]bool{"strings": true, "bytes": true, "regexp": true, "unicode": true, "text/template": true}
+		harmless := map[string]bool{
+			"bytes.Buffer.String": true, "bytes.Buffer.Bytes": true, "bytes.Buffer.Len": true, "strings.Builder.String": true,
+			"strings.Builder.WriteString": true, "bytes.Buffer.WriteString": true, "bytes.Buffer.Write": true, "strings.Builder.Write": true,
+			"strings.Join": false,
+		}
+		isRewriter := func(cc *ssa.CallCommon) (string, bool) {
+			name := CalleeName(cc)
+			if harmless[name] {
+				return "", false
+			}
+			i := strings.Index(name, ".")
+			if i < 0 {
+				return "", false
+			}
+			pkg := name[:i]
+			if strings.HasPrefix(name, "text/template.") {
+				pkg = "text/template"
+			}
+			return name, rewriterPkgs[pkg]
+		}
+		// module functions that rewrite the text they are given: a rewriter is applied to something derived from a parameter
+		rewrites := func(g *ssa.Function) string {
+			if g == nil || len(g.Blocks) == 0 {
+				return ""
+			}
+			found := ""
+			for _, ci := range Calls(g, true) {
+				name, bad := isRewriter(ci.Common())
+				if !bad {
+					continue
+				}
+				for _, a := range CallArgs(ci.Common()) {
+					if Derives(a, func(v ssa.Value) bool { _, ok := v.(*ssa.Parameter); return ok }) {
+						found = name
+					}
+				}
+			}
+			return found
+		}
+		n := 0
+		for _, fn := range c.ModuleFuncs() {
+			pp := FuncPkgPath(fn)
+			if pp != Module+"/analysis/report" && pp != Module+"/analysis/edit" && pp != Module+"/analysis/code" {
+				continue
+			}
+			for _, ci := range CallsTo(fn, false, "go/format.Node") {
+				n++
+				w := ci.Common().Args[0]
+				// the buffer the printer writes to
+				isBuf := func(v ssa.Value) bool {
+					al, ok := v.(*ssa.Alloc)
+					return ok && SliceHas(w, SliceOpts{}, func(x ssa.Value) bool { return x == ssa.Value(al) })
+				}
+				bad := ""
+				var badPos = ci.Pos()
+				// everything computed from the buffer's contents
+				for _, rc := range Calls(fn, false) {
+					call, ok := rc.(*ssa.Call)
+					if !ok {
+						continue
+					}
+					cn := CalleeName(&call.Call)
+					if cn != "bytes.Buffer.String" && cn != "bytes.Buffer.Bytes" && cn != "strings.Builder.String" {
+						continue
+					}
+					if !Derives(call.Call.Args[0], isBuf) {
+						continue
+					}
+					for use := range ForwardFlow(call) {
+						uc, ok := use.(ssa.CallInstruction)
+						if !ok {
+							continue
+						}
+						if name, isBad := isRewriter(uc.Common()); isBad {
+							bad, badPos = name, uc.Pos()
+						}
+						if g := uc.Common().StaticCallee(); g != nil && FuncInModule(g) {
+							if r := rewrites(g); r != "" {
+								bad, badPos = g.Name()+" (applies "+r+")", uc.Pos()
+							}
+						}
+					}
+				}
+				c.Check(FuncKey(fn)+"::printed-source-handed-on-verbatim", badPos, bad == "", "what go/format printed for a syntax node must be returned as it is: it is spliced into suggested fixes, and go/printer's output is only guaranteed to parse if its white space (which separates statements and fields) is left alone; here it is passed through %s", bad)
+			}
+		}
+		if n < 5 {
+			c.Undecided("found only %d calls of go/format.Node in the report/edit/code helpers", n)
+		}
 	})
 }
 
